@@ -72,6 +72,9 @@ def op_table(D: int) -> Dict[str, Tuple[Callable, Callable]]:
         "split2_kwdim_1": (lambda x, e: torch.split(x, 2, dim=0)[1], ident),
         "split_sizes_12_1": (lambda x, e: x.split([1, 2])[1], ident),
         "split_sizes_12_0": (lambda x, e: torch.split(x, [1, 2])[0], ident),
+        "split_sizes_111_2": (lambda x, e: x.split([1, 1, 1])[2], ident),
+        "split_sizes_111_1": (lambda x, e: torch.split(x, (1, 1, 1))[1], ident),
+        "split_with_sizes_111_2": (lambda x, e: x.split_with_sizes([1, 1, 1])[2], ident),
         "tensor_split2_0": (lambda x, e: x.tensor_split(2)[0], ident),
         "tensor_split2_1": (lambda x, e: torch.tensor_split(x, 2)[1], ident),
         "tensor_split_idx1_1": (lambda x, e: x.tensor_split([1])[1], ident),
